@@ -752,3 +752,160 @@ Proof.
   intros p l Hx. simpl in Hx. rewrite Ht in Hx. simpl in Hx.
   destruct (dget (t_loc t) p) eqn:E; inversion Hx; subst. apply HL. assumption.
 Qed.
+
+(* ------------------------------------------------------------------ (3) outputs only where requested *)
+Lemma step_keeps_look : forall T s o s' x l,
+  Inv T s -> mid_op o = true -> step s o = (s', x) -> writes_to l o = false ->
+  look (s_fs s) l <> Absent -> look (s_fs s') l = look (s_fs s) l.
+Proof.
+  intros T s o s' x l [t [Ht [HT [HF _]]]] Hm Hs Hw Hl.
+  destruct (step_some s t T o s' x Ht HT (proj1 HF) Hm Hs) as [t' [_ [_ Hc]]].
+  destruct Hc as [[E1 _] | [[p [c [Eo [_ [_ [_ [_ E]]]]]]] | [p [io [n [_ [_ [_ [Ea [_ [E _]]]]]]]]]]].
+  - rewrite E1. reflexivity.
+  - subst o. simpl in Hw. rewrite E, Hw. reflexivity.
+  - rewrite E. rewrite eqb_if; [reflexivity|]. intro; subst l. contradiction.
+Qed.
+
+Lemma run_ind_w_app : forall (R : state -> list path -> Prop),
+  (forall s H o s' x, R s H -> mid_op o = true -> step s o = (s', x) ->
+      (forall q c, o = WriteTo q c -> In q H) ->
+      R s' (match x with OLoc l => l :: H | _ => H end)) ->
+  forall a s H b, forallb mid_op a = true -> writes_ok s H (a ++ b) = true -> R s H ->
+  exists H', R (fst (run s a)) H' /\ writes_ok (fst (run s a)) H' b = true.
+Proof.
+  intros R HR. induction a as [|o r IH]; intros s H b Hm Hw H0; [exists H; split; assumption|].
+  simpl in Hm. apply andb_true_iff in Hm. destruct Hm as [Hm1 Hm2].
+  rewrite fst_run_cons. rewrite <- app_comm_cons in Hw. simpl in Hw.
+  destruct (step s o) as [s1 x] eqn:E. simpl.
+  apply andb_true_iff in Hw. destruct Hw as [Hw1 Hw2].
+  eapply IH; [assumption | exact Hw2 |].
+  eapply HR; eauto. intros q c Eo. subst o. apply mem_In. assumption.
+Qed.
+
+Lemma writes_ok_cons : forall s H o r,
+  writes_ok s H (o :: r) =
+  (let '(s1, x) := step s o in
+   (match o with WriteTo q _ => mem q H | _ => true end)
+   && writes_ok s1 (match x with OLoc l => l :: H | _ => H end) r).
+Proof. reflexivity. Qed.
+
+Theorem tracker_location_holds_last_write : forall f0 d n0 m1 l c m2,
+  wf f0 -> look f0 d = Dir -> look f0 (d ++ [n0]) = Absent ->
+  forallb mid_op (m1 ++ WriteTo l c :: m2) = true ->
+  writes_ok (start f0) [] (Create (Some d) n0 :: m1 ++ WriteTo l c :: m2) = true ->
+  forallb (fun o => negb (writes_to l o)) m2 = true ->
+  look (s_fs (alive f0 (Some d) n0 (m1 ++ WriteTo l c :: m2))) l = File c.
+Proof.
+  intros f0 d n0 m1 l c m2 W HD HA Hm Hw Hn.
+  rewrite alive_some by assumption. rewrite writes_ok_create in Hw by assumption.
+  rewrite forallb_app in Hm. apply andb_true_iff in Hm. destruct Hm as [Hm1 Hm2].
+  simpl in Hm2.
+  set (s1 := {| s_fs := put_dir (d ++ [n0]) f0; s_tr := Some (new_tracker (Some (d ++ [n0]))) |}) in *.
+  destruct (run_ind_w_app (Rw (d ++ [n0]) s1) (step_keeps_Rw (d ++ [n0]) s1) m1 s1 [] (WriteTo l c :: m2) Hm1 Hw)
+    as [H' [[HI [HH _]] Hw2]].
+  { split; [apply create_inv; assumption|]. split; [intros x []|]. split; [reflexivity|]. intros dst []. }
+  rewrite fst_run_app, fst_run_cons.
+  set (sa := fst (run s1 m1)) in *.
+  rewrite writes_ok_cons in Hw2. destruct (step sa (WriteTo l c)) as [sb x] eqn:Es.
+  apply andb_true_iff in Hw2. destruct Hw2 as [Hl _]. apply mem_In in Hl.
+  destruct (HH l Hl) as [Cl [c0 Fl]].
+  assert (HIb := step_keeps_inv _ _ (WriteTo l c) _ _ HI eq_refl Es).
+  assert (Hb : look (s_fs sb) l = File c).
+  { destruct HI as [t [_ [_ [[HTd _] _]]]].
+    simpl in Es. unfold write_to in Es. rewrite Fl in Es.
+    apply child_of_spec in Cl. destruct Cl as [n Cl]. subst l. rewrite parent_child, HTd in Es. simpl in Es.
+    inversion Es; subst. simpl. rewrite look_put_file, path_eqb_refl. reflexivity. }
+  simpl.
+  apply (run_ind_p (fun o => mid_op o && negb (writes_to l o))
+           (fun s => Inv (d ++ [n0]) s /\ look (s_fs s) l = File c)).
+  - intros s o s' x' [HIs HLs] Ho Hs. apply andb_true_iff in Ho. destruct Ho as [Ho1 Ho2].
+    apply negb_true_iff in Ho2. split; [eapply step_keeps_inv; eauto|].
+    rewrite (step_keeps_look _ _ _ _ _ _ HIs Ho1 Hs Ho2); [assumption | congruence].
+  - clear -Hm2 Hn. induction m2 as [|o r IH]; [reflexivity|]. simpl in *.
+    apply andb_true_iff in Hm2. apply andb_true_iff in Hn. destruct Hm2, Hn.
+    apply andb_true_iff. split; [apply andb_true_iff; split; assumption | auto].
+  - split; assumption.
+Qed.
+
+Theorem tracker_outputs_only_where_requested : forall f0 d n0 mid,
+  wf f0 -> look f0 d = Dir -> look f0 (d ++ [n0]) = Absent -> forallb mid_op mid = true ->
+  writes_ok (start f0) [] (Create (Some d) n0 :: mid) = true ->
+  (forall q, look f0 q = Absent -> look (s_fs (life f0 (Some d) n0 mid)) q <> Absent -> In q (requested mid)) /\
+  (forall dst, In dst (outs_of (alive f0 (Some d) n0 mid)) -> In dst (requested mid) /\ look f0 dst = Absent) /\
+  ((forall p, In p (requested mid) -> is_prefix (d ++ [n0]) p = false) ->
+   forall dst, In dst (outs_of (alive f0 (Some d) n0 mid)) ->
+   exists src c, snd (step (alive f0 (Some d) n0 mid) (RealLocation dst)) = OLoc src /\
+                 look (s_fs (alive f0 (Some d) n0 mid)) src = File c /\
+                 look (s_fs (life f0 (Some d) n0 mid)) dst = File c).
+Proof.
+  intros f0 d n0 mid W HD HA Hm Hw.
+  split; [apply (tracker_scratch_empty f0 d n0 mid W HD HA Hm); assumption|].
+  assert (Hsub : forall dst, In dst (outs_of (alive f0 (Some d) n0 mid)) -> In dst (requested mid)).
+  { intros dst Hd. rewrite alive_some in Hd by assumption.
+    destruct (run_out_sub (d ++ [n0]) mid _ Hm (create_inv f0 d n0 W HA) dst Hd) as [A|A]; [contradiction | assumption]. }
+  destruct (alive_Rw f0 d n0 mid W HD HA Hm Hw) as [H' [HI [_ [HFr HOa]]]].
+  split.
+  - intros dst Hd. split; [auto|].
+    destruct (is_prefix (d ++ [n0]) dst) eqn:Ep; [eapply wf_under_absent; eauto|].
+    specialize (HOa dst Hd Ep). simpl in HOa. rewrite look_put_dir in HOa.
+    apply not_prefix in Ep. rewrite eqb_if in HOa by (intro; subst; tauto). assumption.
+  - intros Hreq dst Hd.
+    destruct (del_spec _ _ HI) as [t [g [h [Ht [Hc [Hs [Hh [Hg [_ Hcont]]]]]]]]].
+    unfold outs_of in Hd, Hsub. rewrite Ht in Hd, Hsub.
+    destruct HI as [t0 [Ht0 [_ [_ [HL HO]]]]]. rewrite Ht in Ht0. inversion Ht0; subst t0.
+    destruct (HO dst Hd) as [[src Hsrc] _]. destruct (HL dst src Hsrc) as [_ [c Fc]].
+    exists src, c. split; [simpl; rewrite Ht, Hsrc; reflexivity|]. split; [assumption|].
+    rewrite life_alive, Hs. simpl. rewrite Hh, (Hreq dst (Hsub dst Hd)).
+    rewrite (Hcont (fun x Hx => Hreq x (Hsub x Hx)) dst src Hd Hsrc). assumption.
+Qed.
+
+(* ------------------------------------------------------------------ (4) the copy is faithful *)
+Theorem tracker_copy_faithful : forall f0 d n0 mid p l,
+  wf f0 -> look f0 d = Dir -> look f0 (d ++ [n0]) = Absent -> forallb mid_op mid = true ->
+  forallb (fun o => negb (writes_to l o) && negb (writes_to p o)) mid = true ->
+  snd (step (alive f0 (Some d) n0 mid) (RealLocation p)) = OLoc l ->
+  snd (step (alive f0 (Some d) n0 mid) (FileExists p)) = OBool true ->
+  look (s_fs (alive f0 (Some d) n0 mid)) l = look (s_fs (alive f0 (Some d) n0 mid)) p /\
+  (exists c, look (s_fs (alive f0 (Some d) n0 mid)) p = File c) /\
+  (look f0 p <> Absent -> look (s_fs (alive f0 (Some d) n0 mid)) p = look f0 p).
+Proof.
+  intros f0 d n0 mid p l W HD HA Hm Hw Hl He.
+  rewrite alive_some in * by assumption.
+  set (s1 := {| s_fs := put_dir (d ++ [n0]) f0; s_tr := Some (new_tracker (Some (d ++ [n0]))) |}) in *.
+  set (G := fun s => Inv (d ++ [n0]) s /\
+     (forall t, s_tr s = Some t -> dget (t_loc t) p = Some l -> dget (t_pre t) p = Some true ->
+                look (s_fs s) l = look (s_fs s) p /\ exists c, look (s_fs s) p = File c) /\
+     (look f0 p <> Absent -> look (s_fs s) p = look f0 p)).
+  assert (HG : G (fst (run s1 mid))).
+  { apply (run_ind_p (fun o => mid_op o && (negb (writes_to l o) && negb (writes_to p o))) G).
+    - intros s o s' x [HI [HGs HPs]] Ho Hs.
+      apply andb_true_iff in Ho. destruct Ho as [Ho1 Ho2]. apply andb_true_iff in Ho2. destruct Ho2 as [Ho2 Ho3].
+      apply negb_true_iff in Ho2. apply negb_true_iff in Ho3.
+      split; [eapply step_keeps_inv; eauto|]. split.
+      + intros t' Ht' Hloc Hpre.
+        destruct HI as [t [Ht [HT [HF HR]]]].
+        destruct (step_some s t _ o s' x Ht HT (proj1 HF) Ho1 Hs) as [t2 [Ht2 [_ Hc]]].
+        rewrite Ht' in Ht2. inversion Ht2; subst t2. clear Ht2.
+        destruct Hc as [[E1 [E2 _]] | [[q [c [Eo [E2 [_ [_ [_ E]]]]]]] | [q [io [n [_ [_ [_ [Ea [Ne [E [EL [EP _]]]]]]]]]]]]].
+        * subst t'. rewrite E1. apply (HGs t Ht Hloc Hpre).
+        * subst t' o. simpl in Ho2, Ho3. rewrite !E, Ho2, Ho3. apply (HGs t Ht Hloc Hpre).
+        * rewrite EL, dget_dset in Hloc. rewrite EP, dget_dset in Hpre.
+          destruct (path_eqb q p) eqn:Eq.
+          -- apply path_eqb_eq in Eq. subst q. inversion Hloc; subst l. inversion Hpre as [Hf].
+             rewrite !E, path_eqb_refl. rewrite (eqb_if _ _ _ _ _ Ne).
+             unfold add_content. destruct (look (s_fs s) p); try discriminate. split; eauto.
+          -- destruct (HGs t Ht Hloc Hpre) as [A [c A2]].
+             rewrite !E. rewrite eqb_if by (intro; subst l; congruence).
+             rewrite eqb_if by (intro; subst p; congruence). split; eauto.
+      + intro Hp. rewrite <- (HPs Hp). eapply step_keeps_look; eauto. rewrite (HPs Hp). assumption.
+    - clear -Hm Hw. induction mid as [|o r IH]; [reflexivity|]. simpl in *.
+      apply andb_true_iff in Hm. apply andb_true_iff in Hw. destruct Hm, Hw.
+      apply andb_true_iff. split; [apply andb_true_iff; split; assumption | auto].
+    - split; [apply create_inv; assumption|]. split; [intros t Ht Hx; inversion Ht; subst; discriminate|].
+      intro Hp. simpl. rewrite look_put_dir. rewrite eqb_if; [reflexivity|]. intro; subst p. contradiction. }
+  destruct HG as [[t [Ht _]] [HG2 HG3]].
+  simpl in Hl, He. rewrite Ht in Hl, He. simpl in Hl, He.
+  destruct (dget (t_loc t) p) eqn:E1; inversion Hl; subst.
+  destruct (dget (t_pre t) p) eqn:E2; inversion He; subst.
+  destruct (HG2 t Ht E1 E2) as [A B]. auto.
+Qed.
